@@ -179,6 +179,13 @@ macro_rules! common_post {
 #[kani::unwind(3)]
 #[kani::stub(crate::recovery::hybrid_slow_start::HybridSlowStart::use_hystart_parameter, any_hystart)]
 fn vq_c10_cubic_multiplicative_decrease_bounded() {
+    // obligations of the shared body `vq_c10_cubic_multiplicative_decrease_body` (listed here for the registry):
+    //   "C10/cubic.minimum_window/is_two_datagrams"
+    //   "C10/cubic.multiplicative_decrease/floor_two_datagrams"
+    //   "C10/cubic.multiplicative_decrease/never_increases"
+    //   "C10/cubic.multiplicative_decrease/is_max_of_beta_cwnd_and_floor"
+    //   "C10/cubic.multiplicative_decrease/w_max_at_least_two_packets"
+    //   "C10/cubic.multiplicative_decrease/frame_mds"
     vq_c10_cubic_multiplicative_decrease_body(false);
 }
 
@@ -224,6 +231,22 @@ fn vq_c10_cubic_multiplicative_decrease_body(full: bool) {
 #[kani::unwind(3)]
 #[kani::stub(crate::recovery::hybrid_slow_start::HybridSlowStart::use_hystart_parameter, any_hystart)]
 fn vq_c10_cubic_on_packet_lost_bounded() {
+    // obligations of the shared body `vq_c10_cubic_on_packet_lost_body` (listed here for the registry):
+    //   "C10/cubic.on_packet_lost/floor_two_datagrams"
+    //   "C10/cubic.on_packet_lost/window_representable_no_overflow"
+    //   "C10/cubic.on_packet_lost/inv_preserved"
+    //   "C10/cubic.on_packet_lost/bytes_in_flight_decreases_by_lost"
+    //   "C10/cubic.on_packet_lost/never_increases_window"
+    //   "C10/cubic.on_packet_lost/persistent_congestion_collapses_to_minimum"
+    //   "C10/cubic.on_packet_lost/persistent_congestion_restarts_slow_start"
+    //   "C10/cubic.on_packet_lost/persistent_congestion_resets_cubic"
+    //   "C10/cubic.on_packet_lost/at_most_one_reduction_per_recovery_period"
+    //   "C10/cubic.on_packet_lost/recovery_state_unchanged"
+    //   "C10/cubic.on_packet_lost/reduction_is_beta_cubic"
+    //   "C10/cubic.on_packet_lost/enters_recovery_at_event_time"
+    //   "C10/cubic.on_packet_lost/in_flight_high_water_reset"
+    //   "C10/cubic.on_packet_lost/frame_mds"
+    //   "C10/cubic.on_packet_lost/slow_start_exit_event_iff_left_slow_start"
     vq_c10_cubic_on_packet_lost_body(false);
 }
 
@@ -288,6 +311,18 @@ fn vq_c10_cubic_on_packet_lost_body(full: bool) {
 #[kani::unwind(3)]
 #[kani::stub(crate::recovery::hybrid_slow_start::HybridSlowStart::use_hystart_parameter, any_hystart)]
 fn vq_c10_cubic_on_explicit_congestion_bounded() {
+    // obligations of the shared body `vq_c10_cubic_on_explicit_congestion_body` (listed here for the registry):
+    //   "C10/cubic.on_explicit_congestion/floor_two_datagrams"
+    //   "C10/cubic.on_explicit_congestion/window_representable_no_overflow"
+    //   "C10/cubic.on_explicit_congestion/inv_preserved"
+    //   "C10/cubic.on_explicit_congestion/bytes_in_flight_unchanged"
+    //   "C10/cubic.on_explicit_congestion/never_increases_window"
+    //   "C10/cubic.on_explicit_congestion/at_most_one_reduction_per_recovery_period"
+    //   "C10/cubic.on_explicit_congestion/recovery_state_unchanged"
+    //   "C10/cubic.on_explicit_congestion/reduction_is_beta_cubic"
+    //   "C10/cubic.on_explicit_congestion/enters_recovery_at_event_time"
+    //   "C10/cubic.on_explicit_congestion/frame_mds"
+    //   "C10/cubic.on_explicit_congestion/slow_start_exit_event_iff_left_slow_start"
     vq_c10_cubic_on_explicit_congestion_body(false);
 }
 
@@ -429,6 +464,15 @@ fn vq_c10_cubic_on_packet_discarded() {
 #[kani::unwind(3)]
 #[kani::stub(crate::recovery::hybrid_slow_start::HybridSlowStart::use_hystart_parameter, any_hystart)]
 fn vq_c10_cubic_on_mtu_update_shrink() {
+    // obligations of the shared body `vq_c10_cubic_on_mtu_update_body` (listed here for the registry):
+    //   "C10/cubic.on_mtu_update/records_new_datagram_size"
+    //   "C10/cubic.on_mtu_update/floor_two_datagrams_of_new_size"
+    //   "C10/cubic.on_mtu_update/at_least_initial_window"
+    //   "C10/cubic.on_mtu_update/window_scaled_by_datagram_size"
+    //   "C10/cubic.on_mtu_update/oversized_window_saturates_not_wraps"
+    //   "C10/cubic.on_mtu_update/window_representable_no_overflow#outside-known"
+    //   "C10/cubic.on_mtu_update/frame"
+    //   "C10/cubic.on_mtu_update/window_representable_no_overflow"
     let (old, new) = if kani::any() { (9000, 1200) } else { (1500, 1200) };
     vq_c10_cubic_on_mtu_update_body(old, new);
 }
@@ -440,6 +484,15 @@ fn vq_c10_cubic_on_mtu_update_shrink() {
 #[kani::unwind(3)]
 #[kani::stub(crate::recovery::hybrid_slow_start::HybridSlowStart::use_hystart_parameter, any_hystart)]
 fn vq_c10_cubic_on_mtu_update_grow() {
+    // obligations of the shared body `vq_c10_cubic_on_mtu_update_body` (listed here for the registry):
+    //   "C10/cubic.on_mtu_update/records_new_datagram_size"
+    //   "C10/cubic.on_mtu_update/floor_two_datagrams_of_new_size"
+    //   "C10/cubic.on_mtu_update/at_least_initial_window"
+    //   "C10/cubic.on_mtu_update/window_scaled_by_datagram_size"
+    //   "C10/cubic.on_mtu_update/oversized_window_saturates_not_wraps"
+    //   "C10/cubic.on_mtu_update/window_representable_no_overflow#outside-known"
+    //   "C10/cubic.on_mtu_update/frame"
+    //   "C10/cubic.on_mtu_update/window_representable_no_overflow"
     let (old, new) = if kani::any() { (1200, 9000) } else { (1200, 1500) };
     vq_c10_cubic_on_mtu_update_body(old, new);
 }
